@@ -4,7 +4,7 @@ episode contains and under which build configurations.  No expectation is attach
 import json, os, sys, time, random
 import vlib, gens
 from vlib import log
-from gens import B, F32, F64
+from gens import B, F32, F64, samp
 
 NAN = B("NaN")
 INF = B("inf")
@@ -88,9 +88,18 @@ def execute(cs, wdir, profile="release", case_timeout=20):
         evs = vlib.run_cases(exe, name, by[cfg], wdir, case_timeout=case_timeout)
         for e in evs:
             e["_cfgname"] = cfg
-        log("[run] %s: %d cases %.1fs" % (name, len(by[cfg]), time.time() - t0))
+        # a format / type that this build configuration does not compile is a planning artefact, not an observation
+        # of the code under test: such events are dropped (and counted), never judged
+        una = [e for e in evs if isinstance(e.get("res"), dict) and e["res"].get("k") in ("nofmt", "noty")]
+        if una:
+            UNAVAILABLE[0] += len(una)
+            evs = [e for e in evs if not (isinstance(e.get("res"), dict) and e["res"].get("k") in ("nofmt", "noty"))]
+        log("[run] %s: %d cases %.1fs%s" % (name, len(by[cfg]), time.time() - t0, (" (%d not available in this build, dropped)" % len(una)) if una else ""))
         events.extend(evs)
     return events
+
+
+UNAVAILABLE = [0]
 
 
 def sample_events(events, k=6):
@@ -132,11 +141,11 @@ def plan_C01(tier, rng):
         nb = F["emax"] - F["emin"] + 1
         allb = list(range(F["emin"], F["emax"] + 1))
         if quick:
-            binades = rng.sample(allb, 130 if F is F64 else 60)
-            longb = set(rng.sample(binades, 12))
+            binades = samp(rng, allb, 130 if F is F64 else 60)
+            longb = set(samp(rng, binades, 12))
         else:
             binades = allb
-            longb = set(rng.sample(allb, 150))
+            longb = set(samp(rng, allb, 150))
         hw = []
         for e in binades:
             hw += gens.halfway_inputs(F, rng, [e], pats_per=2 if quick else 3, long_ok=e in longb)
@@ -146,7 +155,7 @@ def plan_C01(tier, rng):
         inputs += [(s, t, F) for (s, t) in gens.tie_decimals(F, rng, per=4 if quick else 40)]
         fp = gens.fastpath_boundary(F, rng)
         if quick:
-            fp = rng.sample(fp, 250)
+            fp = samp(rng, fp, 250)
         inputs += [(s, t, F) for (s, t) in fp]
         inputs += [(s, t, F) for (s, t) in gens.edge_inputs(F, rng)]
         inputs += [(s, t, F) for (s, t) in gens.random_decimal(rng, 400 if quick else 6000)]
@@ -215,7 +224,7 @@ def plan_C02(tier, rng):
         binades = list(range(nb))
         vals += [(b, t, F) for (b, t) in gens.float_values(F, rng, nrand=300 if quick else 20000,
                                                             per_binade=1 if quick else 4,
-                                                            binades=binades if (not quick or F is F32) else rng.sample(binades, 700))]
+                                                            binades=binades if (not quick or F is F32) else samp(rng, binades, 700))]
         # all shorter-interval floats (mantissa field 0) -- exhaustive
         vals += [("%x" % (ef << F["mbits"]), "shorter-interval", F) for ef in range(1, nb)]
         if F is F64:
@@ -436,9 +445,9 @@ def decimal_float_corpus(rng, n_half, n_rand, longs=4):
     out = []
     for F in (F64, F32):
         allb = list(range(F["emin"], F["emax"] + 1))
-        out += [(s, F) for (s, t) in gens.halfway_inputs(F, rng, rng.sample(allb, n_half), pats_per=1, long_ok=False, variants=False)]
-        out += [(s, F) for (s, t) in gens.lemire_row_inputs(F, rng, rng.sample(range(-300, 300) if F is F64 else range(-40, 38), max(4, n_half // 3)), per=1)]
-        out += [(s, F) for (s, t) in rng.sample(gens.fastpath_boundary(F, rng), max(10, n_half // 2))]
+        out += [(s, F) for (s, t) in gens.halfway_inputs(F, rng, samp(rng, allb, n_half), pats_per=1, long_ok=False, variants=False)]
+        out += [(s, F) for (s, t) in gens.lemire_row_inputs(F, rng, samp(rng, range(-300, 300) if F is F64 else range(-40, 38), max(4, n_half // 3)), per=1)]
+        out += [(s, F) for (s, t) in samp(rng, gens.fastpath_boundary(F, rng), max(10, n_half // 2))]
         out += [(s, F) for (s, t) in gens.edge_inputs(F, rng)]
         out += [(s, F) for (s, t) in gens.random_decimal(rng, n_rand)]
         out += [(s, F) for (s, t) in gens.random_long_decimal(rng, longs)]
@@ -508,7 +517,7 @@ def plan_C10(tier, rng):
     # at the guard page (the 4- and 8-byte reads), multi-digit integer paths switched on
     Fm = fmt_tags()
     flagged = [f for f in Fm.values() if ("sep" in f["tags"] or "syntax" in f["tags"]) and "hex" not in f["tags"]]
-    for f in (rng.sample(flagged, 40) if quick else flagged):
+    for f in (samp(rng, flagged, 40) if quick else flagged):
         sepc = 39 if f["name"] == "sep_apostrophe" else 95
         for _ in range(6 if quick else 30):
             i += 1
@@ -539,7 +548,7 @@ def plan_C11(tier, rng):
     # every accepted float followed by each kind of trailing byte
     tails = [B(t) for t in ["", "e", "e+", "E-", ".", "..", "_", "x", " ", "+", "-", "e5", "inf", "n", "\x00"]]
     inputs = junk_bytes() + random_bytes(rng, 400 if quick else 8000)
-    for f in rng.sample(floats, min(len(floats), 120 if quick else 2000)):
+    for f in samp(rng, floats, min(len(floats), 120 if quick else 2000)):
         inputs.append(f + rng.choice(tails))
     for f in ["1", "12", "1.5", "1.5e3", "1e5", "-0", "+7.", ".5", "inf", "nan", "infinity", "NaN", "-inf"]:
         for t in tails:
@@ -566,8 +575,12 @@ def plan_C11(tier, rng):
     # followed by a byte that cannot continue a number
     W, wmodel = _witness.scan_witnesses()
     Fm = fmt_tags()
-    wsel = [w for w in W if w["f"] != 0 and len(w["s"]) >= 1]
-    wsel = rng.sample(wsel, min(len(wsel), 9000 if quick else 150000))
+    wall = [w for w in W if w["f"] != 0 and len(w["s"]) >= 1]
+    # every witness of one or two bytes (a lone sign, a sign and a point, ... under every flagged format: where the
+    # 'no digits at all' cases live), and a sample of the longer ones
+    wshort = [w for w in wall if len(w["s"]) <= 2]
+    wlong = [w for w in wall if len(w["s"]) > 2]
+    wsel = wshort + samp(rng, wlong, min(len(wlong), 9000 if quick else 150000))
     for w in wsel:
         i += 1
         f = Fm[w["f"]]
@@ -613,14 +626,14 @@ def plan_C16(tier, rng):
         cs.parse(ep, ty, 0, data, cfgs, partial=True)
     for ty in gens.INT_TYPES:
         ep = cs.new_ep()
-        for s in rng.sample(c04_strings(ty, 10, rng, True), 12 if quick else 40):
+        for s in samp(rng, c04_strings(ty, 10, rng, True), 12 if quick else 40):
             data = list(s) if isinstance(s, bytes) else B(s)
             cs.parse(ep, ty, 0, data, cfgs, tag="parse-int")
-        for v in rng.sample(gens.boundary_ints(ty, 10, rng, 6), 10 if quick else 25):
+        for v in samp(rng, gens.boundary_ints(ty, 10, rng, 6), 10 if quick else 25):
             cs.write(ep, ty, 0, str(v), cfgs, tag="write-int")
     for F in (F64, F32):
         vals = gens.float_values(F, rng, nrand=150 if quick else 4000, per_binade=0,
-                                 binades=rng.sample(range((1 << F["ebits"]) - 1), 60 if quick else 250))
+                                 binades=samp(rng, range((1 << F["ebits"]) - 1), 60 if quick else 250))
         vals += gens.endpoint_family(F, rng, 19 if F is F64 else 8, 22 if F is F64 else 10)
         for (bits, tag) in vals:
             ep = cs.new_ep()
@@ -664,7 +677,7 @@ def plan_C17(tier, rng):
             if not rc:
                 continue
             ep = cs.new_ep()
-            for v in rng.sample(gens.boundary_ints(ty, r, rng, 4), 6 if quick else 20):
+            for v in samp(rng, gens.boundary_ints(ty, r, rng, 4), 6 if quick else 20):
                 wo = (r != 10) or (v % 2 == 0)
                 cs.write(ep, ty, radix_fmt(r), str(v), [rc[0]], wo=wo, tag="write-int")
                 cs.write(ep, ty, radix_fmt(r), str(v), [rc[0]], wo=wo, api="facade")
@@ -672,7 +685,7 @@ def plan_C17(tier, rng):
                wf(nan=B("nan"), inf=B("Infinity")), wf(max=1, round="truncate"), wf(min=60, neg=-320, pos=320)]
     for F in (F64, F32):
         vals = gens.float_values(F, rng, nrand=80 if quick else 2000, per_binade=0,
-                                 binades=rng.sample(range((1 << F["ebits"]) - 1), 40 if quick else 250))
+                                 binades=samp(rng, range((1 << F["ebits"]) - 1), 40 if quick else 250))
         for (bits, tag) in vals:
             i += 1
             ep = cs.new_ep()
@@ -741,7 +754,7 @@ def plan_C19(tier, rng):
 
 def writer_floats(F, rng, nbin, nrand, extra_ints=True):
     nb = (1 << F["ebits"]) - 1
-    vals = gens.float_values(F, rng, nrand=nrand, per_binade=1, binades=rng.sample(range(nb), min(nb, nbin)))
+    vals = gens.float_values(F, rng, nrand=nrand, per_binade=1, binades=samp(rng, range(nb), min(nb, nbin)))
     p = F["p"]
     if extra_ints:
         for v in (1, 2, 3, 7, 8, 9, 10, 15, 16, 17, 35, 36, 37, 99, 100, 255, 256, 1000, 12345, 65535, 65536, 10 ** 6, 10 ** 9,
@@ -772,7 +785,7 @@ def near_power_floats(F, r, rng, n):
     out = []
     kmin = int(F["emin"] * math.log(2) / math.log(r)) + 1
     kmax = int((F["emax"] + F["p"]) * math.log(2) / math.log(r)) - 1
-    for k in rng.sample(range(kmin, kmax + 1), min(n, kmax - kmin + 1)):
+    for k in samp(rng, range(kmin, kmax + 1), min(n, kmax - kmin + 1)):
         from fractions import Fraction
         v = Fraction(r) ** k
         e2 = v.numerator.bit_length() - v.denominator.bit_length()
@@ -953,7 +966,7 @@ def plan_C09(tier, rng):
         o = wf(max=mx, min=mn, neg=ng, pos=ps, round="truncate" if i % 5 == 0 else "round", trim=(i % 7 == 0))
         for F in (F64, F32):
             ex = extreme_floats(F)
-            for (bits, tag) in (rng.sample(ex, 9) if quick else ex):
+            for (bits, tag) in (samp(rng, ex, 9) if quick else ex):
                 ep = cs.new_ep()
                 c = [cfgs[i % len(cfgs)]]
                 place = "start" if i % 2 else "end"
@@ -1050,7 +1063,7 @@ def plan_C14(tier, rng):
             pats.append(("".join(rng.choice("123456789") for _ in range(max(0, n - 2))) + "95"))
         exps = [-320, -310, -20, -7, -6, -5, -4, -1, 0, 1, 5, 8, 9, 10, 11, 20, 300] if F is F64 else [-44, -38, -7, -6, -5, -4, -1, 0, 1, 8, 9, 10, 11, 30]
         for pt in pats:
-            for e in rng.sample(exps, 3 if quick else len(exps)):
+            for e in samp(rng, exps, 3 if quick else len(exps)):
                 try:
                     x = float("%s.%se%d" % (pt[0], pt[1:] or "0", e))
                     out.append((gens.pyfloat_bits(F, x), "digits"))
@@ -1080,7 +1093,7 @@ def plan_C14(tier, rng):
             b = brk[i % len(brk)]
             base = wf(**b)
             cs.write(ep, F["name"], 0, bits, c, wo=True, opts=base, tag=tag)                       # default digits twin
-            for g in rng.sample(grid, 3 if quick else 8):
+            for g in samp(rng, grid, 3 if quick else 8):
                 o = wf(**dict(b, **g))
                 cs.write(ep, F["name"], 0, bits, c, wo=True, opts=o)
                 if o.get("trim"):
@@ -1100,7 +1113,7 @@ def plan_C14(tier, rng):
                 ep = cs.new_ep()
                 c = [rc[i % len(rc)]]
                 cs.write(ep, F["name"], radix_fmt(r), bits, c, wo=True, opts=wf(exp=ec), tag="radix")
-                for g in rng.sample(grid, 2):
+                for g in samp(rng, grid, 2):
                     cs.write(ep, F["name"], radix_fmt(r), bits, c, wo=True, opts=wf(**dict(g, exp=ec)))
                 cs.write(ep, F["name"], radix_fmt(r), bits, c, wo=True, opts=wf(exp=ec, trim=True))
     models = [("MC_FloatWrite.tla", "MC_FloatWrite_quick.cfg" if quick else "MC_FloatWrite.cfg", 8, 1800)]
@@ -1137,7 +1150,7 @@ def grammar_plan(tier, rng, want_tag, prop):
     if quick:
         short = [w for w in sel if len(w["s"]) <= 3]
         longer = [w for w in sel if len(w["s"]) > 3]
-        sel = short + rng.sample(longer, min(len(longer), 45000))
+        sel = short + samp(rng, longer, min(len(longer), 45000))
     cfgs_all = ["rf"] if quick else ["rf", "crf"]
     i = 0
     byfmt = {}
@@ -1351,7 +1364,7 @@ def plan_C15(tier, rng):
             o = pf(exp=exp_char(r), nan=B(nan) if nan else [], inf=B(inf) if inf else [], infinity=B(infinity) if infinity else [])
             vs = variants((nan, inf, infinity))
             if quick:
-                vs = rng.sample(vs, min(len(vs), 70))
+                vs = samp(rng, vs, min(len(vs), 70))
             ep = cs.new_ep()
             for b in vs:
                 i += 1
@@ -1428,11 +1441,11 @@ def plan_C18(tier, rng):
 
     # exhaustive per group: every subset of the 18 syntax flags (sampled in quick), of the 13 separator flags, every byte per char field
     n_syn = 1 << 18
-    subsets = range(n_syn) if not quick else sorted(rng.sample(range(n_syn), 6000))
+    subsets = range(n_syn) if not quick else sorted(samp(rng, range(n_syn), 6000))
     for m in subsets:
         builder([(FLAG_SETTERS[k], True) for k in range(18) if (m >> k) & 1] + [("base_prefix", 120), ("base_suffix", 104)], tag="syntax-flag-subset")
     n_sep = 1 << 13
-    subsets = range(n_sep) if not quick else sorted(rng.sample(range(n_sep), 2500))
+    subsets = range(n_sep) if not quick else sorted(samp(rng, range(n_sep), 2500))
     for m in subsets:
         builder([("digit_separator", 95)] + [(SEP_SETTERS[k], True) for k in range(13) if (m >> k) & 1], tag="separator-flag-subset")
     for name in CHAR_SETTERS:
@@ -1568,6 +1581,8 @@ def run(prop, tier, seed, t0):
             k = "%s:%s" % (e["op"], e["tier"])
             tiers[k] = tiers.get(k, 0) + 1
     extra["implementation_tiers_exercised"] = tiers
+    if UNAVAILABLE[0]:
+        extra["cases_dropped_format_or_type_not_compiled_in_that_build"] = UNAVAILABLE[0]
     mres = models_for(models, tier)
     t1 = time.time()
     result = vlib.judge(events, wdir)
